@@ -28,6 +28,9 @@ JSXFREE = {
 DEFINE = {
     'typed-before': 'import {{ defineComponent }} from "vue"; interface P {{ a: string }} export const C = defineComponent((props: P) => () => null); export const tail = 1;',
     'options-ident': 'import {{ defineComponent }} from "vue"; const base = {{}}; const C = defineComponent((props: {{ a?: number }}) => () => null, base); function after() {{ return C }}',
+    'shadow-param': 'import {{ defineComponent }} from "vue"; export const Real = defineComponent((props: {{ msg: string }}) => () => null); export function registry(defineComponent: (s: (p: {{ id: number }}) => void) => void) {{ defineComponent((props: {{ id: number }}) => {{ console.log(props.id) }}) }}',
+    'shadow-local': 'import {{ defineComponent }} from "vue"; function f() {{ const defineComponent = (x: any) => x; const C = defineComponent((props: {{ a: string }}) => null); return C }}',
+    'other-module': 'import {{ defineComponent }} from "other"; const C = defineComponent((props: {{ a: string }}) => null);',
     'with-jsx': 'import {{ defineComponent }} from "vue"; const C = defineComponent((props: {{ a: string }}) => () => <div>{{props.a}}</div>); const tail = () => <C a="x"/>;',
 }
 
@@ -89,6 +92,12 @@ class Frame:
         self.rt = env.opts.get('resolve_type', False)
         self.diff = None
 
+    def eligible(self, call):
+        from . import c20
+        binding = c20.vue_define_component_binding(self.ctx, self.env.pre)
+        callee = denote.E(call.get('callee').fields[0])
+        return binding is not None and callee.fields[0].get('ctxt') == binding
+
     def fail(self, path, why):
         if self.diff is None:
             self.diff = (path, why)
@@ -115,8 +124,8 @@ class Frame:
                         if n != 'body' and n != 'span':
                             ok = ok and self.same(a.fields[i], b.fields[i], path + '/' + n)
                     return ok
-            if a.ty == 'CallExpr' and b.ty == 'CallExpr' and self.rt is not False and _is_define_component(a):
-                return True      # resolveType may augment it (C20 decides how)
+            if a.ty == 'CallExpr' and b.ty == 'CallExpr' and self.rt is not False and _is_define_component(a) and self.eligible(a):
+                return True      # resolveType may augment Vue's defineComponent (C20 decides how)
             if a.ty != b.ty or a.variant != b.variant or len(a.fields) != len(b.fields):
                 return self.fail(path, 'node %s::%s became %s::%s' % (a.ty, a.variant, b.ty, b.variant))
             ok = True
